@@ -62,6 +62,7 @@ struct Verdict {
 fn compare(a: &Sess, b: &Sess, arity_hint: usize, r: &mut Rng, tuples: usize, fixed: &[Vec<&str>]) -> Verdict {
     let mut any_ok = false;
     let mut tried = 0;
+    let small_numbers_only = matches!(a.env.get("f").map(|v| a.rval(&v)), Some(RVal::Fn { body, .. }) if body.contains('!'));
     let mut run = |args: Vec<String>| -> Option<(String, String, String)> {
         let call = format!("f({})", args.join(", "));
         let ra = a.rout(&a.eval(&call));
@@ -87,7 +88,14 @@ fn compare(a: &Sess, b: &Sess, arity_hint: usize, r: &mut Rng, tuples: usize, fi
             1 => arity_hint + 1,
             _ => arity_hint,
         };
-        let args: Vec<String> = (0..n).map(|_| r.pick(&ARG_POOL).to_string()).collect();
+        let args: Vec<String> = (0..n)
+            .map(|_| {
+                let a = r.pick(&ARG_POOL).to_string();
+                // a factorial over a power tower of 3 / 7 / 150 is an hours-long loop (a legitimate computation, not an
+                // equivalence question): functions whose body has a `!` get small numbers only
+                if small_numbers_only && ["3", "7", "150"].contains(&a.as_str()) { "2".to_string() } else { a }
+            })
+            .collect();
         if let Some(w) = run(args) {
             return Verdict { any_ok, witness: Some(w) };
         }
